@@ -20,7 +20,8 @@ EXPLANATION = (
     "many elements as the new buffer is long (SymBuf::push_lit stores one byte per three-byte advance, so bytes "
     "beyond `filled` are read later). Decides the structural "
     "necessary condition only, not behavioural equality. "
-    "SIB/ref-writes: deflateResetKeep, inflateResetKeep, inflateReset2, lm_init, lm_set_level assign every field their zlib-ng counterparts assign.")
+    "SIB/ref-writes: deflateResetKeep, inflateResetKeep, inflateReset2, lm_init, lm_set_level assign every field their zlib-ng counterparts assign. "
+    "SIB/ref-conditions: the elementary conditions and calls of the zlib-ng functions this code was ported from (oracles/condparity.json, frozen from the vendored C sources) keep a counterpart in the paired zlib-rs function.")
 
 CLAIM = dict(
     text="Static field-coverage proof obligations over MIR: every leaf field of the deflate/inflate state is written on "
